@@ -104,14 +104,26 @@ def build(src_text, flavour='gxx', extra=(), link_handler=True, name='tu', timeo
 
 MEM_LIMIT_MB = int(os.environ.get('VERIF_MEM_MB', '6000'))
 
+def _stack():
+    # run-time construction of a parser keeps the whole LR(1) analyser in one stack frame (tens of megabytes for mid-sized grammars)
+    import resource
+    try:
+        soft, hard = resource.getrlimit(resource.RLIMIT_STACK)
+        want = 4 << 30
+        resource.setrlimit(resource.RLIMIT_STACK, (want if hard == resource.RLIM_INFINITY or hard >= want else hard, hard))
+    except Exception: pass
+
 def _limits():
+    _stack(); _limits_only()
+
+def _limits_only():
     # plain builds: cap the address space so that a runaway parse cannot exhaust the machine (sanitizer builds reserve
     # terabytes of shadow memory, they are capped through hard_rss_limit_mb instead)
     import resource
     try: resource.setrlimit(resource.RLIMIT_AS, (MEM_LIMIT_MB * 1024 * 1024, MEM_LIMIT_MB * 1024 * 1024))
     except Exception: pass
 
-def run(exe, args=(), stdin=None, timeout=600, env=None, cwd=None, sanitized=None):
+def run(exe, args=(), stdin=None, timeout=600, env=None, cwd=None, sanitized=None, big_stack=True):
     """Run a built binary. Returns (returncode, stdout bytes, stderr bytes, timed_out)."""
     e = dict(os.environ)
     e.setdefault('ASAN_OPTIONS', 'abort_on_error=0:detect_leaks=1:halt_on_error=1:allocator_may_return_null=1')
@@ -129,7 +141,7 @@ def run(exe, args=(), stdin=None, timeout=600, env=None, cwd=None, sanitized=Non
                 sanitized = b'__tsan_init' in blob or b'__asan_init' in blob or b'LLVMFuzzerTestOneInput' in blob
             except Exception: sanitized = True
     try:
-        r = subprocess.run([exe] + list(args), input=stdin, capture_output=True, timeout=timeout, env=e, cwd=cwd, preexec_fn=None if sanitized else _limits)
+        r = subprocess.run([exe] + list(args), input=stdin, capture_output=True, timeout=timeout, env=e, cwd=cwd, preexec_fn=((_stack if big_stack else None) if sanitized else (_limits if big_stack else _limits_only)))
         return r.returncode, r.stdout, r.stderr, False
     except subprocess.TimeoutExpired as ex:
         return -9, ex.stdout or b'', ex.stderr or b'', True
